@@ -189,12 +189,13 @@ def run_path(c, decisions, contracts, world, cfg) -> PathResult:
         old_env = Env(None, clauses.spec_env(it))
         for k, v in env.vars.items():
             old_env.vars[k] = snapshot(v)
-        old_fs = (it.fs_bin, it.fs_txt, it.fs_exists)
+        old_fs = it.fs.mark()
         env.set("__old_env__", OldEnv(old_env, old_fs))
         inputs = dict(old_env.vars)
         inputs.pop("__old_env__", None)
         for pname, pv in getattr(it, "path_params", {}).items():
-            inputs[f"__fs__{pname}"] = VTuple([VBool(z3.Select(old_fs[2], pv.e)), VBytes(z3.Select(old_fs[0], pv.e)), VStr(z3.Select(old_fs[1], pv.e))])
+            from .ghostfs import FS0_BIN, FS0_TXT, FS0_EXISTS
+            inputs[f"__fs__{pname}"] = VTuple([VBool(FS0_EXISTS(pv.e)), VBytes(FS0_BIN(pv.e)), VStr(FS0_TXT(pv.e))])
         pr.inputs = inputs
         # vacuity: the precondition must be satisfiable
         if not decisions and it.check_sat() == "unsat":
@@ -306,12 +307,9 @@ def _model_inputs(it, inputs):
 
 
 def _eval_old(it, clause, old_env, old_fs):
-    cur = (it.fs_bin, it.fs_txt, it.fs_exists)
-    it.fs_bin, it.fs_txt, it.fs_exists = old_fs
-    try:
+    from .ghostfs import OldView
+    with OldView(it.fs, old_fs):
         return clauses.eval_clause(it, clause, old_env)
-    finally:
-        it.fs_bin, it.fs_txt, it.fs_exists = cur
 
 
 def verify_contract(c, contracts, cfg=None):
